@@ -21,7 +21,7 @@ def CallsFresh (a : Actor) : Prop := ∀ p ∈ a.calls, p.2 = .queued ∨ p.2 = 
 
 /-- The loop task was spawned (or the actor is done). -/
 def started : Phase → Bool
-  | .fresh | .pre => false
+  | .fresh | .cell | .pre => false
   | _ => true
 
 def Inv (a : Actor) (s : St) : Prop :=
@@ -50,6 +50,7 @@ theorem next_nf (s : St) (e : Ev) (h : s.failed = false) (he : isFail e = false)
   | tick cb => exact ⟨s, by simp [next, h], h, id⟩
   | exit cb r => exact ⟨s, by simp [next, h], h, id⟩
   | emit p x => exact ⟨s, by simp [next, h], h, id⟩
+  | monFan r t x => exact ⟨s, by simp [next, h], h, id⟩
   | snap sn => exact ⟨s, by simp [next, h], h, id⟩
   | sendRet b m ok => cases ok <;> exact ⟨s, by simp [next, h], h, id⟩
   | callRet k r => cases r <;> exact ⟨s, by simp [next, h], h, id⟩
@@ -92,7 +93,7 @@ theorem cleanup_noSpawnRet (a : Actor) (e : Option SupEv) : ∀ r, Ev.spawnRet r
   unfold cleanup
   split
   · simp
-  · cases e <;> cases hs : a.sup <;> simp [Actor.setStatus, hs]
+  · cases e <;> cases hs : a.sup <;> cases hm : a.mons <;> simp [Actor.setStatus, hs, hm, notifyOuts]
 
 theorem finish_ok (a : Actor) (e : SupEv) : Ok (finish a e) := by
   refine ⟨?_, by simp [finish_phase, started]⟩
@@ -134,8 +135,8 @@ theorem afterExit_ok (a : Actor) (r : Res) : Ok (afterExit a r) := by
   split
   · refine Ok.andThen ?_ (listen_ok _)
     intro e he
-    cases hs : a.sup <;> simp [Actor.setStatus, hs] at he
-    subst he; rfl
+    cases hs : a.sup <;> cases hm : a.mons <;> simp [Actor.setStatus, hs, hm, notifyOuts] at he <;>
+      first | (subst he; rfl) | (rcases he with he | he <;> subst he <;> rfl)
   · exact listen_ok _
   · exact listen_ok _
   · exact finish_ok _ _
@@ -151,6 +152,7 @@ theorem runFx_noFail (a : Actor) (f : Fx) : (∀ e ∈ evs (runFx a f).2, isFail
   | joinGroup g => exact ⟨by simp [runFx, isFail], by simp only [runFx]; split <;> rfl⟩
   | reply k v => simp only [runFx]; split <;> exact ⟨by simp [isFail], rfl⟩
   | forget k => simp only [runFx]; split <;> exact ⟨by simp [isFail], rfl⟩
+  | spawnChild c => exact ⟨by simp [runFx, isFail], rfl⟩
 
 theorem runFxs_noFail (fs : List Fx) (a : Actor) :
     (∀ e ∈ evs (runFxs a fs).2, isFail e = false) ∧ (runFxs a fs).1.phase = a.phase := by
@@ -249,9 +251,22 @@ theorem envOp_frame (a : Actor) (op : AOp) :
     refine ⟨?_, ?_, ?_, ?_⟩ <;>
       (simp only [Actor.envOp, opSupArrive]; split <;> first | rfl | exact id | simp [isFail])
   | treeTaken =>
-    refine ⟨by simp [Actor.envOp, opTreeTaken], ?_, ?_, ?_⟩ <;>
-      (simp only [Actor.envOp, opTreeTaken, apiKill]; (repeat' split) <;> first | rfl | exact id)
+    refine ⟨?_, ?_, ?_, ?_⟩
+    · simp only [Actor.envOp, opTreeTaken]
+      split
+      · cases (apiKill { a with sup := none }).2 <;> simp [isFail]
+      · simp
+    all_goals (simp only [Actor.envOp, opTreeTaken, apiKill]; (repeat' split) <;> first | rfl | exact id)
+  | link p ok =>
+    refine ⟨?_, ?_, ?_, ?_⟩ <;>
+      (simp only [Actor.envOp, opLink]; split <;> first | rfl | exact id | simp)
+  | unlink p =>
+    refine ⟨?_, ?_, ?_, ?_⟩ <;>
+      (simp only [Actor.envOp, opUnlink]; split <;> first | rfl | exact id | simp)
   | kidAdd c => exact ⟨by simp [Actor.envOp], rfl, rfl, id⟩
+  | monAdd m => exact ⟨by simp [Actor.envOp], rfl, rfl, id⟩
+  | monDel m => exact ⟨by simp [Actor.envOp], rfl, rfl, id⟩
+  | monDrop m => exact ⟨by simp [Actor.envOp], rfl, rfl, id⟩
   | kidDel c => exact ⟨by simp [Actor.envOp], rfl, rfl, id⟩
   | call k =>
     refine ⟨?_, ?_, ?_, ?_⟩
@@ -277,6 +292,7 @@ theorem envOp_frame (a : Actor) (op : AOp) :
     · exact ⟨by simp, rfl, rfl, id⟩
   | pollWait w => exact ⟨by simp [Actor.envOp, isFail], rfl, rfl, id⟩
   | spawn _ _ _ _ _ => exact ⟨by simp [Actor.envOp], rfl, rfl, id⟩
+  | spawnInstant _ _ _ _ => exact ⟨by simp [Actor.envOp], rfl, rfl, id⟩
   | pollSpawn _ => exact ⟨by simp [Actor.envOp], rfl, rfl, id⟩
   | dropSpawn => exact ⟨by simp [Actor.envOp], rfl, rfl, id⟩
   | poll => exact ⟨by simp [Actor.envOp], rfl, rfl, id⟩
@@ -365,6 +381,7 @@ theorem runFx_pre (a : Actor) (f : Fx) (hcf : CallsFresh a) :
       obtain ⟨p, hp, hh⟩ := fateOf_mem h
       rcases hcf p hp with h' | h' <;> rw [h'] at hh <;> cases hh
     · exact ⟨rfl, hcf⟩
+  | spawnChild c => exact ⟨rfl, hcf⟩
 
 theorem runFxs_pre (fs : List Fx) (a : Actor) (hcf : CallsFresh a) :
     (runFxs a fs).1.armed = a.armed ∧ CallsFresh (runFxs a fs).1 := by
@@ -407,6 +424,13 @@ theorem dead_core (a : Actor) (op : AOp) (hd : Dead a) (s : St) (hf : s.failed =
   have hnf : a.phase ≠ .fresh := by rw [hph]; simp
   cases op with
   | spawn sup name nf loc sok => exact ⟨s, by simp [Actor.stepCore, opSpawn, hph], hf, by simpa [Actor.stepCore, opSpawn, hph] using hd⟩
+  | spawnInstant sup name nf loc => exact ⟨s, by simp [Actor.stepCore, opSpawnInstant, hph], hf, by simpa [Actor.stepCore, opSpawnInstant, hph] using hd⟩
+  | link p ok =>
+    have hr : opLink a p ok = (a, []) := by simp [opLink, hd.status, Status.rank]
+    exact ⟨s, by simp [Actor.stepCore, hnf, Actor.envOp, hr], hf, by simpa [Actor.stepCore, hnf, Actor.envOp, hr] using hd⟩
+  | unlink p =>
+    have hr : opUnlink a p = (a, []) := by simp [opUnlink, hd.sup]
+    exact ⟨s, by simp [Actor.stepCore, hnf, Actor.envOp, hr], hf, by simpa [Actor.stepCore, hnf, Actor.envOp, hr] using hd⟩
   | pollSpawn sok => exact ⟨s, by simp [Actor.stepCore, opPollSpawn, hph], hf, by simpa [Actor.stepCore, opPollSpawn, hph] using hd⟩
   | dropSpawn => exact ⟨s, by simp [Actor.stepCore, opDropSpawn, hph], hf, by simpa [Actor.stepCore, opDropSpawn, hph] using hd⟩
   | poll => exact ⟨s, by simp [Actor.stepCore, opPoll, pollMark, Phase.isTask, hph], hf, by simpa [Actor.stepCore, opPoll, pollMark, Phase.isTask, hph] using hd⟩
@@ -438,11 +462,17 @@ theorem dead_core (a : Actor) (op : AOp) (hd : Dead a) (s : St) (hf : s.failed =
     exact ⟨s, by simp [Actor.stepCore, hnf, Actor.envOp, opSupArrive, hpo, accepts_cons, next], hf,
       by simpa [Actor.stepCore, hnf, Actor.envOp, opSupArrive, hpo] using hd⟩
   | treeTaken =>
-    refine ⟨s, by simp [Actor.stepCore, hnf, Actor.envOp, opTreeTaken], hf, ?_⟩
+    refine ⟨s, by simp [Actor.stepCore, hnf, Actor.envOp, opTreeTaken, hd.status, Status.rank], hf, ?_⟩
     simp only [Actor.stepCore, hnf, ↓reduceIte, Actor.envOp, opTreeTaken, hd.status, Status.rank]
     simp only [show ¬ (6 < 5) by omega, ↓reduceIte]
     exact ⟨by simp [hph], by simp [hd.status], by simp, by simp [hd.name], by simp [hd.groups], by simpa using hd.calls⟩
   | kidAdd c => exact ⟨s, by simp [Actor.stepCore, hnf, Actor.envOp], hf, by
+      simp only [Actor.stepCore, hnf, ↓reduceIte, Actor.envOp]; exact ⟨by simp [hph], by simp [hd.status], by simp [hd.sup], by simp [hd.name], by simp [hd.groups], by simpa using hd.calls⟩⟩
+  | monAdd m => exact ⟨s, by simp [Actor.stepCore, hnf, Actor.envOp], hf, by
+      simp only [Actor.stepCore, hnf, ↓reduceIte, Actor.envOp]; exact ⟨by simp [hph], by simp [hd.status], by simp [hd.sup], by simp [hd.name], by simp [hd.groups], by simpa using hd.calls⟩⟩
+  | monDel m => exact ⟨s, by simp [Actor.stepCore, hnf, Actor.envOp], hf, by
+      simp only [Actor.stepCore, hnf, ↓reduceIte, Actor.envOp]; exact ⟨by simp [hph], by simp [hd.status], by simp [hd.sup], by simp [hd.name], by simp [hd.groups], by simpa using hd.calls⟩⟩
+  | monDrop m => exact ⟨s, by simp [Actor.stepCore, hnf, Actor.envOp], hf, by
       simp only [Actor.stepCore, hnf, ↓reduceIte, Actor.envOp]; exact ⟨by simp [hph], by simp [hd.status], by simp [hd.sup], by simp [hd.name], by simp [hd.groups], by simpa using hd.calls⟩⟩
   | kidDel c => exact ⟨s, by simp [Actor.stepCore, hnf, Actor.envOp], hf, by
       simp only [Actor.stepCore, hnf, ↓reduceIte, Actor.envOp]; exact ⟨by simp [hph], by simp [hd.status], by simp [hd.sup], by simp [hd.name], by simp [hd.groups], by simpa using hd.calls⟩⟩
@@ -471,7 +501,15 @@ theorem started_core (a : Actor) (op : AOp) (hst : started a.phase = true) :
     Ok (a.stepCore op) := by
   have hnf : a.phase ≠ .fresh := by intro h; simp [h, started] at hst
   have hnp : a.phase ≠ .pre := by intro h; simp [h, started] at hst
+  have hnc : a.phase ≠ .cell := by intro h; simp [h, started] at hst
   cases op with
+  | spawnInstant sup name nf loc =>
+    simp only [Actor.stepCore, opSpawnInstant]
+    first
+      | exact ⟨by simp, hst⟩
+      | (split
+         · rename_i h; exact absurd h hnf
+         · exact ⟨by simp, hst⟩)
   | spawn sup name nf loc sok =>
     simp only [Actor.stepCore, opSpawn]
     first
@@ -484,6 +522,7 @@ theorem started_core (a : Actor) (op : AOp) (hst : started a.phase = true) :
     first
       | exact ⟨by simp, hst⟩
       | (split
+         · rename_i h; exact absurd h hnc
          · rename_i h; exact absurd h hnp
          · exact ⟨by simp, hst⟩)
   | dropSpawn =>
@@ -491,6 +530,7 @@ theorem started_core (a : Actor) (op : AOp) (hst : started a.phase = true) :
     first
       | exact ⟨by simp, hst⟩
       | (split
+         · rename_i h; exact absurd h hnc
          · rename_i h; exact absurd h hnp
          · exact ⟨by simp, hst⟩)
   | poll =>
@@ -511,7 +551,13 @@ theorem started_core (a : Actor) (op : AOp) (hst : started a.phase = true) :
     obtain ⟨h1, h2, _, _⟩ := envOp_frame a _
     exact ⟨h1, by rw [h2]; exact hst⟩
 
-theorem stepCore_inv (a : Actor) (s : St) (op : AOp) (h : Inv a s) :
+/-- The ops of the residue analysis: every op but `spawn_instant*` (clause (iv) of C04 is about the
+awaited `spawn` forms; an instant spawn is visible to the outside before its start can fail). -/
+def AOp.notInstant : AOp → Bool
+  | .spawnInstant _ _ _ _ => false
+  | _ => true
+
+theorem stepCore_inv (a : Actor) (s : St) (op : AOp) (hop : AOp.notInstant op = true) (h : Inv a s) :
     ∃ s', accepts next s (evs (a.stepCore op).2) = .ok s' ∧ Inv (a.stepCore op).1 s' := by
   rcases h with ⟨hf, hd⟩ | ⟨hf, hfr | hpre | hst⟩
   · -- dead
@@ -541,6 +587,7 @@ theorem stepCore_inv (a : Actor) (s : St) (op : AOp) (h : Inv a s) :
             · exact ⟨{ s with entered := true }, by simp [accepts_cons, next, hf, hent], hpre _ _ rfl rfl rfl hf rfl⟩
           · exact ⟨{ s with entered := true }, by simp [accepts_cons, next, hf, hent], hpre _ _ rfl rfl rfl hf rfl⟩
         · exact ⟨{ s with entered := true }, by simp [accepts_cons, next, hf, hent], hpre _ _ rfl rfl rfl hf rfl⟩
+    | spawnInstant sup name nf loc => simp [AOp.notInstant] at hop
     | pollSpawn sok => exact ⟨s, by simp [Actor.stepCore, opPollSpawn, hph], by simpa [Actor.stepCore, opPollSpawn, hph] using hfresh⟩
     | dropSpawn => exact ⟨s, by simp [Actor.stepCore, opDropSpawn, hph], by simpa [Actor.stepCore, opDropSpawn, hph] using hfresh⟩
     | poll => exact ⟨s, by simp [Actor.stepCore, opPoll, pollMark, Phase.isTask, hph], by simpa [Actor.stepCore, opPoll, pollMark, Phase.isTask, hph] using hfresh⟩
@@ -553,6 +600,7 @@ theorem stepCore_inv (a : Actor) (s : St) (op : AOp) (h : Inv a s) :
     have hkeep : Inv a s := Or.inr ⟨hf, Or.inr (Or.inl ⟨hph, hent, harmed, hcf⟩)⟩
     cases op with
     | spawn sup name nf loc sok => exact ⟨s, by simp [Actor.stepCore, opSpawn, hph], by simpa [Actor.stepCore, opSpawn, hph] using hkeep⟩
+    | spawnInstant sup name nf loc => simp [AOp.notInstant] at hop
     | poll => exact ⟨s, by simp [Actor.stepCore, opPoll, pollMark, Phase.isTask, hph], by simpa [Actor.stepCore, opPoll, pollMark, Phase.isTask, hph] using hkeep⟩
     | abort => exact ⟨s, by simp [Actor.stepCore, opAbort, hph, Phase.isTask], by simpa [Actor.stepCore, opAbort, hph, Phase.isTask] using hkeep⟩
     | resume sg =>
@@ -565,10 +613,11 @@ theorem stepCore_inv (a : Actor) (s : St) (op : AOp) (h : Inv a s) :
       simp only [Actor.stepCore]
       unfold opDropSpawn
       split
-      case h_2 hne => exact absurd hph (hne)
+      case h_1 hc => rw [hph] at hc; cases hc
+      case h_3 _ hne => exact absurd hph (hne)
       obtain ⟨h1, h2, h3, h4, h5, _⟩ := cleanup_fields a none harmed
       refine ⟨{ s with failed := true }, ?_, Or.inl ⟨rfl, ?_⟩⟩
-      · simp only [andThen_snd, andThen_fst, evs_append, evs_cons_ev, evs_nil, cleanup_none_evs, List.append_nil]
+      · simp only [andThen_snd, andThen_fst, evs_append, evs_cons_ev, evs_nil, cleanup_none_evs, List.append_nil, evs_ite_note]
         rw [accepts_cons_ok next _ (show next s .dropped = .ok { s with failed := true } from rfl)]
         rw [accepts_cons_ok next _ (show next { s with failed := true } (.cancelled .preStart) = .ok { s with failed := true } from rfl)]
         rfl
@@ -578,7 +627,8 @@ theorem stepCore_inv (a : Actor) (s : St) (op : AOp) (h : Inv a s) :
       simp only [Actor.stepCore]
       unfold opPollSpawn
       split
-      case h_2 hne => exact absurd hph (hne)
+      case h_1 hc => rw [hph] at hc; cases hc
+      case h_3 _ hne => exact absurd hph (hne)
       split
       · -- killed during start-up
         have hd := failSpawn_dead ({ a with sigVal := false, kids := none } : Actor) .killed harmed hcf
@@ -650,9 +700,9 @@ theorem stepCore_inv (a : Actor) (s : St) (op : AOp) (h : Inv a s) :
     obtain ⟨s1, hacc1, hf1, _⟩ := accepts_nf _ s hf hno
     exact ⟨s1, hacc1, Or.inr ⟨hf1, Or.inr (Or.inr hst')⟩⟩
 
-theorem step_inv (a : Actor) (s : St) (op : AOp) (h : Inv a s) :
+theorem step_inv (a : Actor) (s : St) (op : AOp) (hop : AOp.notInstant op = true) (h : Inv a s) :
     ∃ s', accepts next s (evs (a.step op).2) = .ok s' ∧ Inv (a.step op).1 s' := by
-  obtain ⟨s1, hacc, hinv⟩ := stepCore_inv a s op h
+  obtain ⟨s1, hacc, hinv⟩ := stepCore_inv a s op hop h
   refine ⟨s1, ?_, hinv⟩
   rw [step_eq]
   simp only [evs_append]
@@ -667,13 +717,13 @@ theorem step_inv (a : Actor) (s : St) (op : AOp) (h : Inv a s) :
     · rw [accepts_cons_ok next _ (show next s1 (.snap _) = .ok s1 by simp [next, hf])]
       rfl
 
-theorem run_inv (ops : List AOp) (a : Actor) (s : St) (h : Inv a s) :
+theorem run_inv (ops : List AOp) (hops : ∀ op ∈ ops, AOp.notInstant op = true) (a : Actor) (s : St) (h : Inv a s) :
     ∃ s', accepts next s (a.run ops).2 = .ok s' ∧ Inv (a.run ops).1 s' := by
   induction ops generalizing a s with
   | nil => exact ⟨s, rfl, h⟩
   | cons op ops ih =>
-    obtain ⟨s1, hacc, hinv⟩ := step_inv a s op h
-    obtain ⟨s2, hacc2, hinv2⟩ := ih _ s1 hinv
+    obtain ⟨s1, hacc, hinv⟩ := step_inv a s op (hops op (by simp)) h
+    obtain ⟨s2, hacc2, hinv2⟩ := ih (fun o ho => hops o (by simp [ho])) _ s1 hinv
     refine ⟨s2, ?_, hinv2⟩
     simp only [Actor.run]
     rw [accepts_append next _ hacc]
@@ -685,8 +735,9 @@ theorem inv_init (id : Nat) : Inv (Actor.init id) {} :=
 /-- **Residue, all schedules** (not a claimed property; C08 is decided by a separate check): for
 every op sequence the actor's trace is accepted by the residue automaton — after a failed or
 dropped spawn nothing of the actor is left and nothing of it ever happens. -/
-theorem residue_ok (id : Nat) (ops : List AOp) : ok (trace id ops) = true := by
-  obtain ⟨s', h, _⟩ := run_inv ops (Actor.init id) {} (inv_init id)
+theorem residue_ok (id : Nat) (ops : List AOp) (hops : ∀ op ∈ ops, AOp.notInstant op = true) :
+    ok (trace id ops) = true := by
+  obtain ⟨s', h, _⟩ := run_inv ops hops (Actor.init id) {} (inv_init id)
   simp [ok, trace, h, Except.isOk, Except.toBool]
 
 end Life.Residue
